@@ -29,7 +29,7 @@ from pyvc import props as P         # noqa: E402
 
 VENV_PY = '/venv/bin/python'
 SPEC_MODULES = ['specs.c_topology', 'specs.c_registry', 'specs.c_runfor', 'specs.c_dicts', 'specs.c_timeline', 'specs.c_emitter',
-                'specs.c_engine', 'specs.c_store', 'specs.c_process', 'specs.c_apply', 'specs.c_embed', 'specs.c_emit'] + \
+                'specs.c_engine', 'specs.c_store', 'specs.c_process', 'specs.c_apply', 'specs.c_embed', 'specs.c_emit', 'specs.c_emit2'] + \
     [m for m in os.environ.get('PYVC_EXTRA_SPECS', '').split(',') if m]
 
 
